@@ -436,6 +436,31 @@ def router_fact(src, problems):
         return 'path_info'
 
 
+def raiser_formats(src, problems):
+    """message formats of the other raisers (static view, predicate wrapper, secured view): the single
+    str constant containing %s inside the named function."""
+    want = {'out_of_bounds': ('pyramid/static.py', 'static_view.get_resource_name', 'Out of bounds: %s'),
+            'predicate_mismatch': ('pyramid/config/views.py', 'predicated_view.predicate_wrapper',
+                                   'predicate mismatch for view %s (%s)'),
+            'unauthorized': ('pyramid/viewderivers.py', '_secured_view.secured_view',
+                             'Unauthorized: %s failed permission check')}
+    out = {}
+    for key, (rel, qual, dflt) in want.items():
+        out[key] = dflt
+        try:
+            fn = F.Module(src, rel).find(qual)
+            if fn is None:
+                raise ValueError('function not found')
+            cs = [n.value for n in ast.walk(fn) if isinstance(n, ast.Constant) and isinstance(n.value, str)
+                  and '%s' in n.value]
+            if len(cs) != 1 or cs[0].count('%s') != dflt.count('%s') or cs[0].replace('%s', '').count('%'):
+                raise ValueError('format constants: %r' % (cs,))
+            out[key] = cs[0]
+        except Exception as e:
+            problems.append('%s:%s message format unrecognised: %r' % (rel, qual, e))
+    return out
+
+
 def _bool(b):
     return 'true' if b else 'false'
 
@@ -468,6 +493,7 @@ def extract(src, problems):
     if not ok:
         problems.append("HTTPException.__init__: status = f'{self.code} {self.title}' changed")
     nf = router_fact(src, problems)
+    fmts = raiser_formats(src, problems)
     L = [F.HEADER, TYPES]
     L.append('Definition html_template : text := %s.\n' % _s(tm['html_template_obj']))
     L.append('Definition plain_template : text := %s.\n' % _s(tm['plain_template_obj']))
@@ -492,6 +518,8 @@ def extract(src, problems):
     L.append('Definition json_keys : list (text * N) := [%s].\n' % '; '.join(
         '(%s, %d%%N)' % (_s(k), s) for k, s in pf['json_keys']))
     L.append('Definition notfound_detail_attr : text := %s.\n' % _s(nf))
+    for k in sorted(fmts):
+        L.append('Definition fmt_%s : text := %s.\n' % (k, _s(fmts[k])))
     cl = []
     for e in classes:
         cl.append('  mkCls %s %s %s %s %s %s %s %s' % (
@@ -504,5 +532,5 @@ def extract(src, problems):
                'branches': [[b['test'], b['ctype'], b['esc'], b['page']] for b in pf['branches']],
                'args': [[k, s, e] for k, s, e in pf['args']],
                'env_escaped': pf['env_escaped'], 'hdr_escaped': pf['hdr_escaped'],
-               'notfound_detail': 'request.' + nf}
+               'notfound_detail': 'request.' + nf, 'raiser_formats': fmts}
     return ''.join(L), summary
